@@ -5,7 +5,7 @@ Neutrino/Lemmas/BlockMgr.lean.
 -/
 import Neutrino.Lemmas.BlockMgrInv
 import Neutrino.Gen.BlockMgr
-import Neutrino.Lemmas.HeaderList
+import Neutrino.Lemmas.HeaderListRefine
 namespace Neutrino.BM
 
 /-- The invariant C01/C02/C19 share (DESIGN 6.6), C01 part: the stored chain is
@@ -107,12 +107,32 @@ theorem C01_source_facts :
 ring of bounded_header_list.go): in a ring satisfying the ring invariant - which
 `ResetHeaderState` establishes (`HL.reset_inv`) - the walk from the live node `k` behind the back
 returns the live node of the asked height if it is at or below that node and among the last `len`
-pushed, and `nil` otherwise.  (`HL.push_preserves_RInv` is stated, not yet proved; the `hl` driver
-runs the real package against the model and the live-list oracle on every run.) -/
+pushed, and `nil` otherwise.  (`HL.push_preserves_RInv` keeps the invariant, so this holds in every ring built by
+reset / push: see `C01_headerlist_refines`.) -/
 theorem C01_ancestor_correct (r : HL.Ring) (t top : Nat) (inv : HL.RInv r t top) (k h : Nat) (hk : k < r.len) :
     HL.ancestor r (some (HL.slotAt r.cap t k)) h =
       if h ≤ top - k ∧ top + 1 - r.len ≤ h then some (HL.slotAt r.cap t (top - h)) else none :=
   HL.ancestor_correct r t top inv k h hk
+
+/-- **The bounded ring refines the live list - every operation sequence, every ring size ≥ 1,
+every query.**  For every sequence of `ResetHeaderState` / `PushBack` operations that starts with
+a reset and pushes consecutive heights, `Back`, `k`×`Prev` and `Ancestor(h)` from there return
+exactly the node the abstract live list (`specStep`: newest first, at most `cap` nodes;
+`specAncestor`: the live node of that height at or behind `k`) holds - in particular never a node
+from a reused slot, never a node from before the last reset. -/
+theorem C01_headerlist_refines (cap : Nat) (hc : 0 < cap) (ops : List HL.Op) (hne : ops ≠ [])
+    (hwf : HL.WF none ops) (k h : Nat) :
+    let r := HL.run { cap := cap } ops
+    let l := HL.specRun cap [] ops
+    r.tail.map (HL.nodeOf r) = l.head? ∧
+    (HL.nthPrev r k r.tail).map (HL.nodeOf r) = l[k]? ∧
+    (HL.ancestor r (HL.nthPrev r k r.tail) h).map (HL.nodeOf r) = HL.specAncestor l k h := by
+  intro r l
+  obtain ⟨t, top, a⟩ := HL.abs_run cap hc ops { cap := cap } [] none rfl hwf (fun _ e => by cases e) (Or.inl hne)
+  exact HL.abs_queries a k h
+
+example : HL.WF none [.reset 5 1, .push 6 2, .push 7 3, .push 8 4, .push 9 5] := by
+  simp [HL.WF]
 
 /-! Non-vacuity: a concrete table, a fork, a reorganisation. -/
 def exTbl : Tbl :=
